@@ -1,16 +1,19 @@
 (* C10 - termination measures of the preprocessor model (coq/C17/Model.v).
 
-   search_total_l        : for a non-empty macro name the inner find-loop of expandMacros makes at
-                           most |line| - pos + 1 iterations (search3 never answers SFuel), and the
-                           fuel-collapsed C17.search is the same function for every larger fuel;
+   search3_total_l         : for a non-empty macro name the inner find-loop of expandMacros makes at
+                             most |line| - pos + 1 iterations (search3 never answers SFuel), and the
+                             fuel-collapsed C17.search is the same function for every larger fuel;
    sweep_fuel_sufficient_l : the per-macro replacement loop makes at most |line| - pos + 1
-                           iterations, so the fuel S |line| used by C17.Model.pass is never the
-                           reason it stops;
+                             iterations, so the fuel S |line| used by C17.Model.pass is never the
+                             reason it stops;
+   expand_size_bounded_l   : the expanded line is at most |line| + max_growth + longest body long
+                             (growth bound of expandMacros, fix 6b05a50);
    search_empty_name_spins : with an EMPTY name the loop never advances (pos += 0): on the line
-                           "a" it is still running after any number of iterations;
-   define_name_nonempty_l  : a #define directive never yields an object-like macro with an empty
-                           name, and process keeps the table free of them - so the spinning
-                           loop is reachable only through the -D option (dash_d "=5"). *)
+                             "a" it is still running after any number of iterations - the reason
+                             why pass skips empty names (fix e201f6d);
+   classify_define_nonempty, process_names_nonempty_l : a #define directive never yields an
+                             object-like macro with an empty name, and process keeps the table
+                             free of them - an empty name can only come from -D (dash_d "=5"). *)
 From Coq Require Import List Arith NArith Bool Ascii String Lia.
 From Cb Require Import C17.Model C17.Expand C10.Model.
 Import ListNotations.
